@@ -160,7 +160,8 @@ def gen_cases(tier, verif_seed):
             aseeds.append([rng.getrandbits(32) for _ in range(nreq)])
         poly = rng.random() < .3
         # make first WSDL requests race in a good share of the groups
-        if rng.random() < .4:
+        wsdl_race = rng.random() < .4
+        if wsdl_race:
             for c in range(min(n_callers, rng.randint(2, 4))):
                 callers[c][0] = ['wsdl']
             # ... and now and then the build fails for one of the requesters
@@ -177,6 +178,11 @@ def gen_cases(tier, verif_seed):
             if region is not None and k % 4 == 3:
                 # every shared region at once, with a lower switch rate
                 region = ['auto-all', 0]
+            force_opcodes = False
+            if wsdl_race and k % 4 == 1:
+                # the double-checked build: windows inside single lines
+                region = ['server/wsgi.py', 'handle_wsdl_request']
+                force_opcodes = True
             yield {
                 'seed': seed, 'useed': gseed & 0xffffffff,
                 'in_prot': pair[0], 'out_prot': pair[1], 'validator': val,
@@ -187,7 +193,7 @@ def gen_cases(tier, verif_seed):
                          'sseed': sr.getrandbits(48),
                          # bytecode-granular pre-emption inside the region
                          'opcodes': region is not None and
-                         sr.random() < opcode_share},
+                         (sr.random() < opcode_share or force_opcodes)},
                 'gc': sr.random() < .1,
                 'catalogue': cat_list,
             }
